@@ -14,7 +14,7 @@ from vt.world import World, WSpec, Abort
 ID = 'C10'
 KIND = 'explorer'
 LEVEL = 'model_checking'
-BUDGET = {'quick': 120, 'thorough': 1200}
+BUDGET = {'quick': 900, 'thorough': 10800}
 RULE = ('first operation X in {start, stop, restart, reload, incr, decr, set, add+start, rm, reloadconfig, quit, '
         'periodic check} x outcome mode {succeeds, raises synchronously, fails asynchronously}; a second '
         'state-changing request Y from the same set injected at EVERY loop-iteration boundary while X is in flight '
